@@ -365,6 +365,9 @@ def simp1(t):
         return None
     if k == 'attr' and t[2] == 'name' and is_enum_member(t[1]):
         return C(t[1][2])                     # Enum member .name
+    if k == 'idx' and t[1][0] == 'slice' and t[2][0] == 'const' and isinstance(t[2][1], int) and not isinstance(t[2][1], bool) and t[2][1] >= 0 \
+            and t[1][2][0] == 'const' and isinstance(t[1][2][1], int) and t[1][2][1] >= 0 and t[1][3] == NONE:
+        return ('idx', t[1][1], C(t[1][2][1] + t[2][1]))             # xs[a:][k] is xs[a + k]
     if k == 'idx' and t[1][0] == 'ite' and (is_literal_seq(t[1][2]) or t[1][2][0] == 'ite') and (is_literal_seq(t[1][3]) or t[1][3][0] == 'ite') \
             and t[2][0] == 'const':
         return simp(('ite', t[1][1], ('idx', t[1][2], t[2]), ('idx', t[1][3], t[2])))
@@ -447,6 +450,8 @@ def simp1(t):
             return OR(*xs) if f == S('any') else AND(*xs)
         if f in (S('list'), S('tuple')) and len(args) == 1 and is_literal_seq(args[0]):
             return (f[1], args[0][1])
+        if f == S('list') and len(args) == 1 and args[0][0] == 'comp' and not (len(t) > 3 and t[3]):
+            return args[0]                  # list(<list comprehension / collected generator>) is that list
         if f in (S('frozenset'), S('set')) and len(args) == 1 and is_literal_seq(args[0]):
             return ('tuple', args[0][1])          # used for membership tests only
         if f == S('bool') and len(args) == 1:
